@@ -43,7 +43,7 @@ theorem succ_facts {s s' : St} {t : Tid} {a : Act Op} (hi : Inv s) (hs : step s 
     (t ≠ u → (∀ dl, s.pc u ≠ .wBlocked dl) → s'.pc u = s.pc u) ∧
     -- the step that takes `t` away from the broadcast wakes every blocked thread
     (s.pc t = .setBcast → s'.pc t ≠ .setBcast → ∀ dl, s.pc u = .wBlocked dl → s'.pc u = .wRelock dl false) := by
-  obtain ⟨h1, h0, h2, h3, h4⟩ := hi
+  obtain ⟨h1, h0, h2, h3, h4, h5⟩ := hi
   cases a with
   | tick q => simp [step] at hs; subst hs; refine ⟨?_, ?_, ?_, ?_, ?_, ?_, ?_, ?_⟩ <;> intros <;> simp_all
   | call op =>
